@@ -1,0 +1,13 @@
+//go:build verif
+
+package ds
+
+// VerifIterYield, when set, is called by the iterator goroutine before each
+// element is sent (build tag "verif").
+var VerifIterYield func()
+
+func verifIterYield() {
+	if f := VerifIterYield; f != nil {
+		f()
+	}
+}
